@@ -119,6 +119,15 @@ def aug_cells():
         src = aug_prog(op, tk, ok, place)
         if src is not None:
             yield ("aug", OPN[OPS.index(op)], tk, ok, place), src
+            # the same cell with the right operand spelled as a variable / as a call instead of a literal
+            # (lowerings that special-case literal operands take another path)
+            l, r = OPERANDS[ok]
+            if place in ('global', 'local', 'class'):
+                stmt = " %s= %s\n" % (op, r)
+                if stmt in src:
+                    pre = "def rhs_():\n    return %s\nrv_ = %s\n" % (r, r)
+                    yield ("aug-var-operand", OPN[OPS.index(op)], tk, ok, place), pre + src.replace(stmt, " %s= rv_\n" % op, 1)
+                    yield ("aug-call-operand", OPN[OPS.index(op)], tk, ok, place), pre + src.replace(stmt, " %s= rhs_()\n" % op, 1)
 
 
 # ---------------------------------------------------------------- destructuring patterns
@@ -372,6 +381,8 @@ def _cell_matches(cell, pat):
     """pat: list like ['aug', '*', 'name', 'NI', '*'] ('*' = any)."""
     if len(pat) != len(cell):
         return False
+    if pat[0] == "aug" and cell[0] in ("aug-var-operand", "aug-call-operand"):
+        cell = ("aug",) + tuple(cell[1:])
     return all(p == "*" or str(p) == str(c) for p, c in zip(pat, cell))
 
 
